@@ -44,7 +44,7 @@ def correspondence(ctx):
     from DHLLDV.DHLLDV_constants import gravity
     lines, metas = [], []
     for _ in range(ctx.n(40, 1500)):
-        pl = G.random_pipeline(ctx.rng)
+        pl = G.random_pipeline(ctx.rng, vary_speed=True)
         for Q in G.flows_for(ctx.rng, pl, 3):
             try:
                 want = pl.calc_system_head(Q)
@@ -108,7 +108,7 @@ def monitor(ctx, extended=False):
     n = ctx.n(25, 800) * (2 if extended else 1)
     nontrivial = 0
     for _ in range(n):
-        pl = G.random_pipeline(ctx.rng)
+        pl = G.random_pipeline(ctx.rng, vary_speed=True)
         desc = G.describe(pl)
         try:
             fresh = {}
